@@ -41,11 +41,16 @@ func TestMain(m *testing.M) {
 
 // runT is one process start on the data directory.
 type runT struct {
-	SSH   string `json:"ssh,omitempty"` // "", "ssh-simulator", "ssh-auth"
+	SSH   string `json:"ssh,omitempty"` // "", "ssh-simulator", "ssh-auth", "ssh-proxy", "ssh-jail"
 	FTP   bool   `json:"ftp,omitempty"`
 	SMTP  bool   `json:"smtp,omitempty"`
 	LDAP  bool   `json:"ldap,omitempty"`
 	Agent bool   `json:"agent,omitempty"`
+	// More: types of further service instances enabled in the same start (each on its own
+	// port). Instances whose types persist the same item share it: the four ssh service
+	// types all present the one ssh host key, two ftp (smtp, ldap) instances the one ftp
+	// (smtp, ldap) certificate.
+	More []string `json:"more,omitempty"`
 	// Kill < 0: the run completes and its identity is observed. Kill >= 0: the starting
 	// process is SIGKILLed Kill/killSteps of the way through the estimated start-up time.
 	Kill int `json:"kill"`
@@ -76,25 +81,53 @@ func (r runT) set() string {
 			s = append(s, x.n)
 		}
 	}
+	s = append(s, r.More...)
 	return strings.Join(s, "+")
 }
 
-func (r runT) enabled() []string {
-	var s []string
-	if r.SSH != "" {
-		s = append(s, "ssh")
-	}
-	if r.FTP {
-		s = append(s, "ftp")
-	}
-	if r.SMTP {
-		s = append(s, "smtp")
-	}
-	if r.LDAP {
-		s = append(s, "ldap")
+func (r runT) instances() []instT { return instances(r.SSH, r.FTP, r.SMTP, r.LDAP, r.More) }
+
+// obsT is one thing a completed run has to present: Name is the key in Identity.Items,
+// Item the persisted identity item behind it.
+type obsT struct{ Name, Type, Item string }
+
+func (r runT) observed() []obsT {
+	var out []obsT
+	for _, in := range r.instances() {
+		out = append(out, obsT{in.Name, in.Type, in.Item})
 	}
 	if r.Agent {
-		s = append(s, "agent")
+		out = append(out, obsT{"agent", "agent listener", "agent"})
+	}
+	return out
+}
+
+// shared: the items presented by two or more instances of this start.
+func (r runT) shared() []string {
+	n := map[string]int{}
+	for _, in := range r.instances() {
+		n[in.Item]++
+	}
+	var out []string
+	for _, it := range []string{"ssh", "ftp", "smtp", "ldap"} {
+		if n[it] > 1 {
+			out = append(out, it)
+		}
+	}
+	return out
+}
+
+// enabled: the identity items (not instances) this start presents.
+func (r runT) enabled() []string {
+	on := map[string]bool{"agent": r.Agent}
+	for _, in := range r.instances() {
+		on[in.Item] = true
+	}
+	var s []string
+	for _, it := range []string{"ssh", "ftp", "smtp", "ldap", "agent"} {
+		if on[it] {
+			s = append(s, it)
+		}
 	}
 	return s
 }
@@ -149,8 +182,14 @@ func (c histCase) tokenLabel() string {
 }
 
 // nontrivial: >=1 restart after a crash state (crash-state token file or killed start), or
-// a restart with a changed service set.
+// a restart with a changed service set, or a restart after a start in which several service
+// instances shared one identity item.
 func (c histCase) nontrivial() bool {
+	for i, r := range c.Runs {
+		if i < len(c.Runs)-1 && len(r.shared()) > 0 {
+			return true
+		}
+	}
 	completed := 0
 	tainted := c.crashState()
 	for i, r := range c.Runs {
@@ -428,7 +467,7 @@ func watchSiblings(dataDir string, stop chan struct{}, seen func(string), kill f
 // runChild starts one sensor process on dataDir and ends it as the plan says.
 func runChild(dataDir string, r runT, plan killPlan) childResult {
 	var res childResult
-	spec := Spec{DataDir: dataDir, SSH: r.SSH, FTP: r.FTP, SMTP: r.SMTP, LDAP: r.LDAP, Agent: r.Agent}
+	spec := Spec{DataDir: dataDir, SSH: r.SSH, FTP: r.FTP, SMTP: r.SMTP, LDAP: r.LDAP, Agent: r.Agent, More: r.More}
 	sj, _ := json.Marshal(spec)
 	pr, pw, err := os.Pipe()
 	if err != nil {
@@ -896,6 +935,7 @@ func checkHistory(c histCase) (v verdict) {
 type seenT struct {
 	val string
 	run int
+	who string // the service instance that presented it
 }
 
 type seenMap = map[string]seenT
@@ -915,17 +955,17 @@ func judge(v *verdict, c histCase, i int, r runT, res childResult, dataDir strin
 		if res.Identity == nil {
 			return "the sensor did not come up: " + describe(res), false
 		}
-		for _, it := range r.enabled() {
-			if e, bad := res.Identity.Errs[it]; bad {
+		for _, o := range r.observed() {
+			if e, bad := res.Identity.Errs[o.Name]; bad {
 				if strings.HasPrefix(e, "infra:") {
 					// the environment kept the harness from looking at this item in this
 					// run (loopback sockets): the run simply does not observe it
 					continue
 				}
-				return fmt.Sprintf("enabled service %s presented no identity: %s", it, e), false
+				return fmt.Sprintf("enabled service %s (%s) presented no identity: %s", o.Name, o.Type, e), false
 			}
-			if _, ok := res.Identity.Items[it]; !ok {
-				return fmt.Sprintf("enabled service %s presented no identity", it), false
+			if _, ok := res.Identity.Items[o.Name]; !ok {
+				return fmt.Sprintf("enabled service %s (%s) presented no identity", o.Name, o.Type), false
 			}
 		}
 		return "", false
@@ -960,26 +1000,46 @@ func judge(v *verdict, c histCase, i int, r runT, res childResult, dataDir strin
 	if k, ok := known["token"]; ok && k.val != tok {
 		return fmt.Sprintf("%s: token on events is %q, but run %d on the same data directory had %q", ctx, tok, k.run, k.val), ""
 	} else if !ok {
-		known["token"] = seenT{tok, i}
+		known["token"] = seenT{tok, i, "events"}
 	} else {
 		v.Labels = append(v.Labels, "compared:token")
 	}
-	for _, it := range r.enabled() {
-		if e := id.Errs[it]; strings.HasPrefix(e, "infra:") {
+	// Every instance is compared with the first value any instance presented for its item
+	// on this data directory ("the same as first generated"): that covers the same instance
+	// across runs, and instances sharing one item within a run and across runs.
+	sharedNow := map[string]bool{}
+	for _, it := range r.shared() {
+		sharedNow[it] = true
+	}
+	for _, o := range r.observed() {
+		it := o.Item
+		who := fmt.Sprintf("%s (%s)", o.Name, o.Type)
+		if e := id.Errs[o.Name]; strings.HasPrefix(e, "infra:") {
 			v.Labels = append(v.Labels, "unobservable:"+it)
-			v.Notes = append(v.Notes, fmt.Sprintf("%s: %s not observed: %s", ctx, it, trunc(e, 200)))
+			v.Notes = append(v.Notes, fmt.Sprintf("%s: %s not observed: %s", ctx, who, trunc(e, 200)))
 			continue
 		}
-		val := id.Items[it]
+		val := id.Items[o.Name]
 		if err := wellFormed(it, val); err != nil {
-			return fmt.Sprintf("%s: %s identity is not well-formed: %v", ctx, it, err), ""
+			return fmt.Sprintf("%s: %s identity presented by %s is not well-formed: %v", ctx, it, who, err), ""
 		}
 		if k, ok := known[it]; ok && k.val != val {
-			return fmt.Sprintf("%s: %s identity is %s, but run %d on the same data directory presented %s", ctx, it, short(val), k.run, short(k.val)), ""
+			if k.run == i {
+				return fmt.Sprintf("%s: %s identity presented by %s is %s, but %s, which shares the persisted %s identity, presented %s in the same run: they cannot both be the one first generated on this data directory", ctx, it, who, short(val), k.who, it, short(k.val)), ""
+			}
+			return fmt.Sprintf("%s: %s identity presented by %s is %s, but run %d on the same data directory presented %s (by %s)", ctx, it, who, short(val), k.run, short(k.val), k.who), ""
 		} else if !ok {
-			known[it] = seenT{val, i}
+			known[it] = seenT{val, i, who}
+			if sharedNow[it] {
+				v.Labels = append(v.Labels, "shared-first-start:"+it)
+			}
 		} else {
-			v.Labels = append(v.Labels, "compared:"+it)
+			if k.run != i {
+				v.Labels = append(v.Labels, "compared:"+it)
+			}
+			if k.who != who {
+				v.Labels = append(v.Labels, "compared-between-instances:"+it)
+			}
 		}
 	}
 	return "", ""
@@ -996,13 +1056,24 @@ func trunc(s string, n int) string {
 
 const sampleToken = "9m4e2mr0ui3e8a215n4g"
 
+// moreTypes: the service types that persist an identity item.
+var moreTypes = []string{"ssh-simulator", "ssh-auth", "ssh-proxy", "ssh-jail", "ftp", "smtp", "ldap"}
+
 func genRun(rt *rapid.T, i int, last bool) runT {
 	var r runT
-	r.SSH = rapid.SampledFrom([]string{"", "ssh-simulator", "ssh-auth", "ssh-simulator", "ssh-auth"}).Draw(rt, fmt.Sprintf("ssh%d", i))
+	r.SSH = rapid.SampledFrom([]string{"", "ssh-simulator", "ssh-auth", "ssh-simulator", "ssh-auth", "ssh-proxy", "ssh-jail"}).Draw(rt, fmt.Sprintf("ssh%d", i))
 	r.FTP = rapid.IntRange(0, 2).Draw(rt, fmt.Sprintf("ftp%d", i)) > 0
 	r.SMTP = rapid.IntRange(0, 2).Draw(rt, fmt.Sprintf("smtp%d", i)) > 0
 	r.LDAP = rapid.IntRange(0, 2).Draw(rt, fmt.Sprintf("ldap%d", i)) > 0
 	r.Agent = rapid.IntRange(0, 2).Draw(rt, fmt.Sprintf("agent%d", i)) > 0
+	// further instances in the same start; more often in the first start, where every item
+	// they share with another instance still has to be generated
+	if p := rapid.IntRange(0, 9).Draw(rt, fmt.Sprintf("morep%d", i)); p < 3 || (i == 0 && p < 6) {
+		n := rapid.IntRange(1, 3).Draw(rt, fmt.Sprintf("moren%d", i))
+		for j := 0; j < n; j++ {
+			r.More = append(r.More, rapid.SampledFrom(moreTypes).Draw(rt, fmt.Sprintf("more%d.%d", i, j)))
+		}
+	}
 	r.Kill = -1
 	if !last {
 		switch p := rapid.IntRange(0, 9).Draw(rt, fmt.Sprintf("killp%d", i)); {
@@ -1056,6 +1127,9 @@ func account(r *vlib.Run, label string, c histCase, v verdict) {
 		if x.killed() {
 			kills++
 		}
+		for _, it := range x.shared() {
+			r.Label("svcset:shares-"+it, 1)
+		}
 		if i > 0 && x.set() != c.Runs[i-1].set() {
 			changed = true
 		}
@@ -1077,7 +1151,7 @@ func account(r *vlib.Run, label string, c histCase, v verdict) {
 	}
 }
 
-const ruleText = "every run of a history is a separate OS process running the real server on one data directory; histories of 2..5 runs with drawn service sets {ssh-simulator|ssh-auth, ftp, smtp, ldap, agent listener}, initial token file absent / empty / proper prefix / complete, runs SIGKILLed at a delay on a 41-step grid from process boot to 1.2x the measured start-up time or after a chosen single store write (child frozen and inspected after every value-log change) or the moment a temporary file appears next to the token file; token-file crash states include planted temporary files under the implementation's own (discovered) temporary name; oracle: one well-formed token on all events, equal token / host key / certificates / agent key between completed runs that enable the item, a start after a crash state comes up well-formed; non-trivial = >=1 completed restart after a crash state (empty/prefix token file or a killed start) or a restart with a changed service set; distinct by whole history"
+const ruleText = "every run of a history is a separate OS process running the real server on one data directory; histories of 2..5 runs with drawn service sets {ssh-simulator|ssh-auth|ssh-proxy|ssh-jail, ftp, smtp, ldap, agent listener, plus 0..3 further instances of these types in the same start - instances of the four ssh types share the ssh host key, instances of one TLS service type share its certificate}, initial token file absent / empty / proper prefix / complete, runs SIGKILLed at a delay on a 41-step grid from process boot to 1.2x the measured start-up time or after a chosen single store write (child frozen and inspected after every value-log change) or the moment a temporary file appears next to the token file; token-file crash states include planted temporary files under the implementation's own (discovered) temporary name; oracle: one well-formed token on all events, every service instance presents the token / host key / certificate / agent key that was presented first for that item on the data directory (same instance across runs, instances sharing an item within a run and across runs), a start after a crash state comes up well-formed; non-trivial = >=1 completed restart after a crash state (empty/prefix token file or a killed start) or a restart with a changed service set or a restart after a start in which >=2 instances shared an item; distinct by whole history"
 
 // ---------------------------------------------------------------- tests
 
@@ -1523,4 +1597,70 @@ func TestTokenSiblingStates(t *testing.T) {
 		}
 	}
 	r.Exhaustive("planted temporary-file states next to the token file: the implementation's own temporary name (discovered by watching a first start) x {empty, 7-byte prefix, complete token} x token file {absent, empty, 9-byte prefix}")
+}
+
+// TestSharedItems: starts in which several service instances share one persisted identity
+// item, enumerated at small scope: every unordered pair (with repetition) of the four ssh
+// service types - they all present the one ssh host key -, two instances of ftp, of smtp, of
+// ldap, and one start with everything at once. The first start on a fresh data directory has
+// to generate the shared item exactly once; each history then restarts with the same set and
+// (thorough tier) with each of the two instances alone and with both again. Every instance
+// must present what was presented first.
+func TestSharedItems(t *testing.T) {
+	r := vlib.Open(prop)
+	r.Rule(ruleText)
+	var c histCase
+	if vlib.ReplayCase("TestSharedItems", &c) {
+		v := checkHistory(c)
+		if v.Infra != "" {
+			t.Fatalf("infra: %s", v.Infra)
+		}
+		if v.Violation != "" {
+			r.Violation(t, "TestSharedItems", v.Used, v.Violation)
+		}
+		return
+	}
+	if vlib.Replaying() {
+		return
+	}
+	type pairT struct{ both, a, b runT }
+	var pairs []pairT
+	sshTypes := []string{"ssh-simulator", "ssh-auth", "ssh-proxy", "ssh-jail"}
+	for i, a := range sshTypes {
+		for _, b := range sshTypes[i:] {
+			pairs = append(pairs, pairT{runT{SSH: a, More: []string{b}}, runT{SSH: a}, runT{SSH: b}})
+		}
+	}
+	pairs = append(pairs,
+		pairT{runT{FTP: true, More: []string{"ftp"}}, runT{FTP: true}, runT{More: []string{"ftp"}}},
+		pairT{runT{SMTP: true, More: []string{"smtp"}}, runT{SMTP: true}, runT{More: []string{"smtp"}}},
+		pairT{runT{LDAP: true, More: []string{"ldap"}}, runT{LDAP: true}, runT{More: []string{"ldap"}}},
+	)
+	everything := runT{SSH: "ssh-simulator", FTP: true, SMTP: true, LDAP: true, Agent: true, More: []string{"ssh-auth", "ftp", "ssh-proxy", "smtp", "ssh-jail", "ldap"}}
+	pairs = append(pairs, pairT{everything, runT{SSH: "ssh-jail", FTP: true, LDAP: true, Agent: true}, runT{SSH: "ssh-auth", SMTP: true, More: []string{"ldap"}}})
+	shard, shards := r.Shard()
+	failed := 0
+	for i, p := range pairs {
+		if i%shards != shard {
+			continue
+		}
+		p.both.Kill, p.a.Kill, p.b.Kill = -1, -1, -1
+		c := histCase{TokenFile: "absent", Runs: []runT{p.both, p.both}}
+		if r.Thorough() {
+			c.Runs = []runT{p.both, p.a, p.b, p.both}
+		}
+		v := checkHistory(c)
+		if v.Infra != "" {
+			t.Fatalf("infra: %s", v.Infra)
+		}
+		account(r, "shared-item/"+strings.Join(p.both.shared(), "+"), c, v)
+		if v.Violation != "" {
+			r.Violation(t, "TestSharedItems", v.Used, v.Violation)
+			if failed++; failed >= maxReports {
+				t.Logf("stopping after %d violations", failed)
+				return
+			}
+		}
+	}
+	r.Exhaustive("pairs of service types sharing one identity item in a first start: all 10 unordered pairs (with repetition) of {ssh-simulator, ssh-auth, ssh-proxy, ssh-jail}, ftp+ftp, smtp+smtp, ldap+ldap, and all of them at once")
 }
